@@ -153,7 +153,12 @@ fn run_scenario(out: &mut Out, sc: &Value, work: &str, idx: usize) {
     let lines: Vec<Value> = std::fs::read_to_string(&resp).unwrap_or_default().lines().filter_map(|l| serde_json::from_str(l).ok()).collect();
     let _ = std::fs::remove_file(&cfgp);
     let _ = std::fs::remove_file(&resp);
-    let base = json!({"kind": sc["kind"], "via": sc["via"], "name": sc["name"], "pat": sc["pat"], "why": sc["why"],
+    let hpar = sc["alist"].as_str().and_then(|t| guarded(|| SparseMatrix::from_alist(t).ok()).unwrap_or(None));
+    let (hrows, hn): (Vec<Vec<usize>>, usize) = match (&hpar, sc["kind"].as_str()) {
+        (Some(h), Some("enc")) if h.num_rows() <= 14 => ((0..h.num_rows()).map(|r| { let mut v: Vec<usize> = h.iter_row(r).copied().collect(); v.sort_unstable(); v }).collect(), h.num_cols()),
+        _ => (vec![], 0),
+    };
+    let base = json!({"kind": sc["kind"], "via": sc["via"], "name": sc["name"], "pat": sc["pat"], "why": sc["why"], "hrows": hrows, "hn": hn,
         "pat_tokens": if sc["pat"].as_str().unwrap().is_empty() { vec![] } else { sc["pat"].as_str().unwrap().split(',').map(|s| s.to_string()).collect::<Vec<_>>() }});
     let mut k = 0;
     while k < lines.len() {
@@ -215,6 +220,26 @@ pub fn generate(a: &Args) {
             if t >= 2 && rng.coin(1, 4) { [2u8, 255, 3, 128][rng.below(4)] } else if t == 1 { 1 } else { b }
         }).collect::<Vec<_>>()})).collect();
         scs.push(json!({"kind": "enc", "via": if i % 2 == 0 { "file" } else { "string" }, "alist": h.alist(), "name": "", "pat": pat, "path": path, "ops": ops, "why": "valid"}));
+    }
+    // encoders on codes whose parity part is not triangular (pivoting) and on near-staircases (ones just ABOVE the diagonal too)
+    for i in 0..(if th { 40 } else { 12 }) {
+        let (ncw, r) = [(12usize, 4usize), (9, 3), (15, 5)][i % 3];
+        let k = ncw - r;
+        let rows: Vec<Vec<usize>> = if i % 2 == 0 { crate::bersup::pivoting_code(ncw, r, 700 + i as u64) } else {
+            // systematic part of a systematic_code + a banded tail: diagonal, and for each j either the entry below or the one above
+            let base_rows = systematic_code(ncw, r, 800 + i as u64);
+            (0..r).map(|j| {
+                let mut row: Vec<usize> = base_rows[j].iter().copied().filter(|&c| c < k).collect();
+                row.push(k + j);
+                if (i / 2 + j) % 2 == 0 { if j + 1 < r { row.push(k + j + 1); } } else if j > 0 { row.push(k + j - 1); }
+                row.sort_unstable(); row.dedup(); row
+            }).collect()
+        };
+        let h = matrix(&rows, ncw);
+        let pat = pats[i % pats.len()];
+        let pat = match pattern_of(pat) { Some(p) if ncw % p.len() != 0 => "", _ => pat };
+        let ops: Vec<Value> = (0..4).map(|_| json!({"bits": (0..k).map(|_| (rng.next() & 1) as u8).collect::<Vec<_>>()})).collect();
+        scs.push(json!({"kind": "enc", "via": "string", "alist": h.alist(), "name": "", "pat": pat, "path": "", "ops": ops, "why": "valid-or-singular"}));
     }
     // constructor failures
     let good = matrix(&random_code(&mut rng, 3, 4, 8).0, 8);
